@@ -33,11 +33,11 @@ def build(nres, sc_mask, graph_kind, geometry, order_kind, rot=None, nan_on=None
     import numpy as np
     import vermouth
     atoms = []
-    gap_after = nres // 2 - 1 if graph_kind == 'gap' else None
+    gap_after = nres // 2 - 1 if graph_kind in ('gap', 'gap-nochain') else None
     for res in range(nres):
         chain = 'A'
         if gap_after is not None and res > gap_after:
-            chain = 'B'
+            chain = 'B' if graph_kind == 'gap' else None        # None: these particles have no chain attribute at all
         if geometry == 'line' or res < 2:
             bb = (SPACING * res, 0.0, 0.0)
         else:
@@ -65,6 +65,8 @@ def build(nres, sc_mask, graph_kind, geometry, order_kind, rot=None, nan_on=None
         if nan_on is not None and atom['name'] == nan_on[0] and atom['res'] == nan_on[1]:
             pos = np.array([np.nan] * 3)
         mol.add_node(key, atomname=atom['name'], resid=atom['resid'], resname='RES', chain=atom['chain'], position=pos)
+        if atom['chain'] is None:
+            del mol.nodes[key]['chain']
         info[key] = dict(atom, pos=pos)
     by = {(a['res'], a['name']): k for k, a in info.items()}
     for res in range(nres):
@@ -253,7 +255,7 @@ def shapes(tier):
     for nres in res_counts:
         masks = sorted({0, (1 << nres) - 1, 0b0101 & ((1 << nres) - 1), 1, 1 << (nres - 1)})
         for sc_mask in masks:
-            for graph_kind in ('linear', 'gap', 'crosslink'):
+            for graph_kind in ('linear', 'gap', 'crosslink', 'gap-nochain'):
                 for geometry in ('line', 'L'):
                     for selection in (('BB',), ('SC1',), ('BB', 'SC1')):
                         if selection == ('SC1',) and sc_mask == 0:
